@@ -71,9 +71,9 @@ func normalizeAndTokenize(s string) []string {
 	if s == "" {
 		return nil
 	}
-	// Normalize similarly to NLP pipeline, then lowercase
-	s = nlp.NormalizeText(s)
-	lower := strings.ToLower(s)
+	// Lowercase first, then normalize similarly to the NLP pipeline: the normalizer drops
+	// non-ASCII characters, and a letter such as the Kelvin sign (U+212A) lowercases to ASCII "k"
+	lower := nlp.NormalizeText(strings.ToLower(s))
 	words := strings.FieldsFunc(lower, func(r rune) bool { return !unicode.IsLetter(r) && !unicode.IsNumber(r) })
 
 	out := make([]string, 0, len(words))
